@@ -466,7 +466,8 @@ func (c *Ctx) encoderUsesJSON(rule string) {
 func (c *Ctx) writerBytesJSON(rule string) {
 	p := c.P
 	isW := func(t types.Type) bool { return isNamed(t, "io", "Writer") || isNamed(t, "io", "WriteCloser") }
-	jsonBytes := func(v ssa.Value) bool {
+	var jsonBytes func(v ssa.Value) bool
+	jsonBytes = func(v ssa.Value) bool {
 		return c.allOrigins(v, func(a apath) bool {
 			if len(a.Fields) != 0 {
 				return false
@@ -489,6 +490,104 @@ func (c *Ctx) writerBytesJSON(rule string) {
 				return n == "encoding/json.Marshal" || n == "encoding/json.MarshalIndent"
 			}
 			return false
+		})
+	}
+	// jsonOnlyBuffer: v is (the address of) a local bytes.Buffer that is filled only through a
+	// json.Encoder (encode into a buffer first, then write the buffer out)
+	jsonOnlyBuffer := func(v ssa.Value) bool {
+		v = stripConv(v)
+		if mi, ok := v.(*ssa.MakeInterface); ok {
+			v = mi.X
+		}
+		al, ok := v.(*ssa.Alloc)
+		if !ok {
+			if ld, isLd := v.(*ssa.UnOp); isLd && ld.Op == token.MUL {
+				// a *bytes.Buffer held in a single-assignment local
+				if a2, isAl := ld.X.(*ssa.Alloc); isAl {
+					for _, ref := range *a2.Referrers() {
+						if st, isSt := ref.(*ssa.Store); isSt && st.Addr == ssa.Value(a2) {
+							if a3, isA3 := st.Val.(*ssa.Alloc); isA3 {
+								al, ok = a3, true
+							}
+						}
+					}
+				}
+			}
+			if !ok {
+				return false
+			}
+		}
+		pt, isPtr := al.Type().Underlying().(*types.Pointer)
+		if !isPtr || !isNamed(pt.Elem(), "bytes", "Buffer") {
+			return false
+		}
+		fed := false
+		good := true
+		var visit func(x ssa.Value)
+		visit = func(x ssa.Value) {
+			if x.Referrers() == nil {
+				return
+			}
+			for _, ref := range *x.Referrers() {
+				switch r := ref.(type) {
+				case *ssa.DebugRef:
+				case *ssa.MakeInterface:
+					for _, r2 := range *r.Referrers() {
+						ci, isCall := r2.(ssa.CallInstruction)
+						if !isCall {
+							good = false
+							continue
+						}
+						switch calleeName(ci) {
+						case "encoding/json.NewEncoder":
+							fed = true
+						case "io.Copy": // as the source
+							if ci.Common().Args[0] == ssa.Value(r) {
+								good = false
+							}
+						default:
+							good = false
+						}
+					}
+				case ssa.CallInstruction:
+					switch calleeName(r) {
+					case "(*bytes.Buffer).Bytes", "(*bytes.Buffer).Len", "(*bytes.Buffer).Reset", "(*bytes.Buffer).String", "(*bytes.Buffer).WriteTo":
+					default:
+						good = false
+					}
+				case *ssa.Store:
+					if r.Val == x {
+						if a2, isAl := r.Addr.(*ssa.Alloc); isAl {
+							visit(a2)
+							for _, r3 := range *a2.Referrers() {
+								if ld, isLd := r3.(*ssa.UnOp); isLd {
+									visit(ld)
+								}
+							}
+						} else {
+							good = false
+						}
+					}
+				case *ssa.UnOp:
+				default:
+					good = false
+				}
+			}
+		}
+		visit(al)
+		return fed && good
+	}
+	jsonBytes0 := jsonBytes
+	jsonBytes = func(v ssa.Value) bool {
+		if jsonBytes0(v) {
+			return true
+		}
+		return c.allOrigins(v, func(a apath) bool {
+			if jsonBytes0(a.Root) && len(a.Fields) == 0 {
+				return true
+			}
+			call, ok := a.Root.(*ssa.Call)
+			return ok && len(a.Fields) == 0 && calleeName(call) == "(*bytes.Buffer).Bytes" && jsonOnlyBuffer(call.Common().Args[0])
 		})
 	}
 	n := 0
@@ -526,6 +625,10 @@ func (c *Ctx) writerBytesJSON(rule string) {
 			}
 			n++
 			nm := calleeName(ci)
+			if nm == "io.Copy" && len(cm.Args) == 2 && isW(cm.Args[0].Type()) && jsonOnlyBuffer(cm.Args[1]) {
+				c.ok(rule, construct, c.ipos(in), "copy of a buffer filled only by a json.Encoder")
+				return
+			}
 			c.check(nm == "encoding/json.NewEncoder", rule, construct, c.ipos(in), "json.NewEncoder", "the message writer is handed to "+nm+": whatever it writes was not produced by encoding/json — a hand-formatted reply (fmt with %q, io.WriteString) is not valid JSON for every error message (\\x1b, \\a, \\v … are Go escapes, not JSON), so the caller gets a decode error or, over WebSocket, no reply at all instead of the handler's error")
 		})
 	}
